@@ -77,10 +77,13 @@ class World:
                 return k
         return 99
 
-    def describe(self, spec):
+    def describe(self, spec, a=None):
         self.keep.append(spec)
         kind = ident = None
-        for c, cl in enumerate(self.classes):
+        if a is not None and a[0] == "obj" and getattr(self.objects[a[1]], "__dict__", {}).get("__provides__") is spec:
+            # Provides objects are shared between instances declared alike: name the queried one
+            kind, ident = 2, a[1]
+        for c, cl in enumerate(self.classes if kind is None else []):
             if cl.__dict__.get("__implemented__") is spec or (cl is object and spec is implementedBy(object)):
                 kind, ident = 1, c
         if kind is None:
@@ -110,11 +113,11 @@ def run_op(w, op):
         return [], None
     if k == "prov":
         a = w.arg(op[1])
-        ans = w.describe(providedBy(a))
+        ans = w.describe(providedBy(a), op[1])
         ip = [n for n, i in enumerate(w.ifaces) if i.providedBy(a)]
         return ans, ip
     if k == "implby":
-        return w.describe(implementedBy(w.arg(op[1]))), None
+        return w.describe(implementedBy(w.arg(op[1])), op[1]), None
     if k == "reg":
         w.registry.register([w.ifaces[i] for i in op[1]], w.ifaces[op[2]], "n%d" % op[3], Factory(op[4], w))
         return [], None
